@@ -359,6 +359,21 @@ func genLabels(r *Rng) map[string]string {
 	if r.Chance(1, 12) {
 		return nil
 	}
+	if r.Chance(1, 14) { // labels that are present but empty (a legal label value), and nothing else
+		l := map[string]string{}
+		for _, k := range labelKeys {
+			if r.Chance(1, 3) {
+				l[k] = ""
+			}
+		}
+		if len(l) == 0 {
+			l[pick(r, labelKeys)] = ""
+		}
+		if r.Chance(1, 3) {
+			l["unrelated"] = ""
+		}
+		return l
+	}
 	l := map[string]string{}
 	if r.Bool() {
 		l["unrelated"] = "x"
